@@ -1,4 +1,5 @@
 import M3d.Lemmas.CodecStl
+import M3d.Lemmas.CodecBlank
 import M3d.Lemmas.CodecPly
 import M3d.Lemmas.CodecMesh
 import M3d.Lemmas.CodecText
@@ -771,5 +772,30 @@ example :
     let a : C3 := (0, 0, 0); let a' : C3 := (negZero64, 0, 0); let b : C3 := (1, 0, 0)
     let c : C3 := (0, 1, 0); let d : C3 := (1, 1, 0)
     meshIndex [(a, b, c), (b, a', d)] = ([a, b, c, d], [[0, 1, 2], [1, 0, 3]]) := by decide +kernel
+
+/-! ### ASCII STL with runs of spaces / tabs (kind `stlw`) -/
+
+/-- **Leading white space is invisible to the tokeniser** (kind `stlw`, partial): `strings.Fields` of a line that
+is prefixed by any run of spaces (0x20) and tabs (0x09) is `strings.Fields` of the line — indentation of an
+ASCII STL line by spaces or tabs cannot change the tokens `readASCII` sees.  (Partial: invariance under the choice
+of the non-empty separator runs *between* tokens is exercised by kind `stlw` through the driver's
+`fields bytes = fields spec` test and the faithful `fields` model, not yet proved in general.) -/
+theorem fields_leading_ws_partial (ws bs : Bytes) (h : ∀ b ∈ ws, b = 0x20 ∨ b = 0x09) :
+    fields (ws ++ bs) = fields bs := by
+  induction ws with
+  | nil => rfl
+  | cons s t ih =>
+    have hs := h s List.mem_cons_self
+    have hw : spaceWidth (s :: (t ++ bs)) = 1 := by
+      rcases hs with rfl | rfl <;> simp [spaceWidth, isAsciiSpace]
+    have := fields_drop_space (s :: (t ++ bs)) (by rw [hw]; decide)
+    rw [hw] at this
+    simp only [List.drop_succ_cons, List.drop_zero] at this
+    rw [List.cons_append, ← this]
+    exact ih (fun b hb => h b (List.mem_cons_of_mem _ hb))
+
+example : fields (ascii " \t  vertex 1 2 3") = fields (ascii "vertex 1 2 3") :=
+  fields_leading_ws_partial (ascii " \t  ") (ascii "vertex 1 2 3") (by decide)
+
 
 end M3d.C15
